@@ -299,11 +299,14 @@ def run_shard(mod, tier, seed, shard, nshards, only_sub=None):
             case, v = state['fail']
             confirmed = True
             if sub.deterministic:
-                try:
-                    v2 = _run_case(mod, sub, case, ShardState(), findings, set(), count=False)
-                    confirmed = v2 is not None
-                except Exception:
-                    confirmed = True
+                confirmed = False
+                for _ in range(3):   # a failure that depends on process scheduling may need more than one attempt
+                    try:
+                        v2 = _run_case(mod, sub, case, ShardState(), findings, set(), count=False)
+                        if v2 is not None:
+                            confirmed = True; break
+                    except Exception:
+                        confirmed = True; break
             path = write_replay(mod, sub, case, v, seed, tier, f's{shard}a{attempt}')
             if confirmed:
                 st.violations.append(dict(sub=sub.name, kind=v.kind, detail=v.detail[:1000], replay=os.path.relpath(path, ROOT), signature=v.signature))
